@@ -88,7 +88,7 @@ def worker(sh):
             # hidden entries carry an arbitrary id: it must be ignored
             frm = [(i, v) for i, v in frm]
             oa_to = rng.random() < 0.1
-            line = 'adjcmp 0 %d %s %s' % (kid, alist_h(frm, rng), alist_h(to, rng, oa_to))
+            line = 'adjcmp 0 %d %s %s' % ((kid,) + wkd.alist_pair(frm, to, rng, oa_to))
             sc.add(line, 'adjcmp', frm=frm, to=to, parent=pat, oa=oa_to)
     # ---- precomputed forms interchangeable with direct forms
     for kid, pat in parents[:2]:
@@ -154,14 +154,6 @@ def worker(sh):
                 pass
         except KeyError as e:
             sh.violation('malformed:%s' % kind, 'driver answer lacks %s: %s' % (e, out), {'line': line})
-
-
-def alist_h(entries, rng, omit_all=False):
-    """like wkd.alist but hidden entries carry a random id (the API gives it no meaning)"""
-    s = 'o%d' % (1 if omit_all else 0)
-    for idx, v in entries:
-        s += ',%d:%s:%d' % (idx, wkd.idhex(rng.getrandbits(256) if v is None and rng.random() < 0.5 else (0 if v is None else v)), 1 if v is None else 0)
-    return s
 
 
 def run(ctx):
